@@ -37,6 +37,7 @@ class Check(object):
         self.t0 = time.time()
         self.rules = {}           # rule -> {"instances": n, "ok": n, "desc": str}
         self.violations = []
+        self.deferred = []        # analysis-incomplete conditions (budget exhausted in some cell): exit 2 unless a violation was found elsewhere
         self.known_hits = []
         self.samples = []
         self.assumptions = []
@@ -136,7 +137,11 @@ class Check(object):
                     json.dump(v, f, indent=1, default=str)
                 print("  %s %s %s: %s" % (v["rule"], v["instance"], v["loc"], v["message"]))
                 print("VIOLATION property=%s replay=%s" % (self.pid, p))
+            for d in self.deferred[:5]:
+                print("  (analysis incomplete elsewhere: %s)" % d)
             return 1
+        if self.deferred:
+            raise AnalysisBroken(self.deferred[0] + (" (+%d more)" % (len(self.deferred) - 1) if len(self.deferred) > 1 else ""))
         print("OK property=%s tier=%s obligations=%d discharged=%d wall=%.1fs"
               % (self.pid, self.tier, obligations, discharged, time.time() - self.t0))
         return 0
